@@ -331,6 +331,14 @@ class ParseContext:
         if real_module:
           qualname = getattr(fn_or_cls, '__qualname__', name)
           module = '.'.join([real_module, *qualname.split('.')[:-1]])
+          # That path can be taken as well (another file's alias may spell it):
+          # the name is internal, any free one will do.
+          base, count = module, 2
+          while True:
+            taken = _REGISTRY.get(f'{module}.{name}')
+            if taken is None or taken.wrapped is fn_or_cls:
+              break
+            module, count = f'{base}_{count}', count + 1
     _make_configurable(
         fn_or_cls,
         name=name,
